@@ -1,2 +1,56 @@
-(** C02 - placeholder, statements follow. *)
-From Verif Require Import Base Engine.
+(** C02 - What was calculated before never corrupts what is calculated or kept next.
+    Only statements here; proofs are in proofs/EngineProofs.v and proofs/EngineC02*.v.
+    Vocabulary: see props/C01.v. *)
+From Coq Require Import ZArith List Bool Arith String.
+From Verif Require Import Base Cal Period Engine EngineProofs EngineC02Proofs.
+Import ListNotations.
+Open Scope nat_scope.
+
+(** Sentence 1.  In a rule system without self-dependence, the answer to a request made
+    at any position of any sequence of calculation requests (calculate, calculate_add,
+    calculate_divide), from any state reached by such requests on the given inputs, is
+    the meaning of that request: it depends neither on what was requested before nor on
+    the order. *)
+Theorem order_independence : forall sy pp inp, ranked sy = true -> 1 <= max_loops sy ->
+  forall rs s i r, forallb is_calc_request rs = true -> Top sy pp inp s ->
+  nth_error rs i = Some r ->
+  nth_error (snd (run (enough_fuel sy) sy pp s rs)) i = Some (sem_answer sy pp inp r).
+Proof. exact order_independent. Qed.
+Print Assumptions order_independence.
+
+(** ... in particular for two different orders of the same requests: *)
+Theorem same_answer_in_any_two_orders : forall sy pp inp, ranked sy = true -> 1 <= max_loops sy ->
+  forall rs1 rs2 i j r,
+  forallb is_calc_request rs1 = true -> forallb is_calc_request rs2 = true ->
+  nth_error rs1 i = Some r -> nth_error rs2 j = Some r ->
+  nth_error (snd (run (enough_fuel sy) sy pp (init inp) rs1)) i
+  = nth_error (snd (run (enough_fuel sy) sy pp (init inp) rs2)) j.
+Proof.
+  intros sy pp inp Hr HL rs1 rs2 i j r H1 H2 Hi Hj.
+  rewrite (order_independent sy pp inp Hr HL rs1 (init inp) i r H1 (Top_init sy pp inp) Hi).
+  rewrite (order_independent sy pp inp Hr HL rs2 (init inp) j r H2 (Top_init sy pp inp) Hj).
+  reflexivity.
+Qed.
+Print Assumptions same_answer_in_any_two_orders.
+
+(** ... and it equals what a fresh simulation with the same inputs returns. *)
+Theorem equals_fresh_simulation : forall sy pp inp, ranked sy = true -> 1 <= max_loops sy ->
+  forall r, is_calc_request r = true ->
+  snd (step (enough_fuel sy) sy pp (init inp) r) = sem_answer sy pp inp r.
+Proof. exact fresh_answer. Qed.
+Print Assumptions equals_fresh_simulation.
+
+(** Non-vacuity: the system of props/C01.v is ranked; two orders of two requests. *)
+Example ex_two_orders :
+  let sy := {| vars := [ mk_var EPerson TInt Month None [] 0%Z false false;
+                         mk_var EPerson TInt Month None
+                           [((1, 1, 1)%Z, EBin BAdd (EDep 0 PLastMonth OPlain) (EConst 1))] 0%Z false false ];
+               params := []; switches := []; max_loops := 1 |} in
+  let pp := {| grp := {| Group.g_entity := {| Group.e_key := EmptyString; Group.e_roles := []; Group.e_containing := [] |};
+                         Group.g_count := 1; Group.g_ids := [0]; Group.g_roles := [0] |} |} in
+  let a := RCalc 1 (Month, (2018, 3, 1)%Z, 1%Z) in
+  let b := RCalc 0 (Month, (2018, 2, 1)%Z, 1%Z) in
+  ranked sy = true /\
+  snd (run (enough_fuel sy) sy pp (init []) [a; b]) = [AVal [1%Z]; AVal [0%Z]] /\
+  snd (run (enough_fuel sy) sy pp (init []) [b; a]) = [AVal [0%Z]; AVal [1%Z]].
+Proof. vm_compute. auto. Qed.
